@@ -129,6 +129,8 @@ class PathCtx:
         self.fresh_counter = 0
         self.path_id: Optional[int] = None
         self.last_query = None
+        self.known: Dict[int, bool] = {}
+        self._keep: List[Any] = []
 
     # -- context management
     def __enter__(self):
@@ -184,6 +186,10 @@ class PathCtx:
             return True
         if z3.is_false(c):
             return False
+        # syntactic cache: a condition already decided on this path (terms are hash-consed) needs no solver call
+        cid = c.get_id()
+        if cid in self.known:
+            return self.known[cid]
         pos = len(self.taken)
         if pos >= self.max_decisions:
             raise BoundExceeded(f"more than {self.max_decisions} symbolic decisions on one path")
@@ -191,6 +197,7 @@ class PathCtx:
             outcome = self.prefix[pos]
             self.solver.add(c if outcome else z3.Not(c))
             self.taken.append((c, outcome, False))
+            self._remember(c, outcome)
             return outcome
         STATS["branch_queries"] += 2
         rt, _ = self._query(c)
@@ -211,7 +218,15 @@ class PathCtx:
             raise PathInfeasible()
         self.solver.add(c if outcome else z3.Not(c))
         self.taken.append((c, outcome, alt))
+        self._remember(c, outcome)
         return outcome
+
+    def _remember(self, c, outcome):
+        self.known[c.get_id()] = outcome
+        self._keep.append(c)
+        n = z3.simplify(z3.Not(c))
+        self.known[n.get_id()] = not outcome
+        self._keep.append(n)
 
     # -- obligations
     def check(self, label: str, cond, detail=None) -> CheckResult:
